@@ -382,7 +382,9 @@ def task_f16_split(params, rec):
     with numpy.errstate(all="ignore"):
         fpa.split_veltkamp(ctx, finv, scale=True)
         fpa.split_veltkamp(ctx, finv, scale=False)
-        apmath.split(ctx, finv)
+        # the wrapper is judged at its own boundary: apmath.split(ctx, a) is the scaling splitter, valid for every finite a
+        xh_, xl_ = apmath.split(ctx, finv)
+        judge_split(rec, "apmath.split", finv, xh_, xl_, True)
     # scalar call form as well
     for x in finv[:: 997]:
         with numpy.errstate(all="ignore"):
@@ -408,6 +410,9 @@ def task_pairs(params, rec):
             v = numpy.concatenate([X, Y])
             fpa.split_veltkamp(ctx, v, scale=True)
             fpa.split_veltkamp(ctx, v, scale=False)
+            vf_ = v[numpy.isfinite(v)]
+            xh_, xl_ = apmath.split(ctx, vf_)
+            judge_split(rec, "apmath.split", vf_, xh_, xl_, True)
         if rep == 0:
             rec.sample(dict(dtype=params["dtype"], x=X[0], y=Y[0], gen=int(c[0])))
             rec.sample(dict(dtype=params["dtype"], x=X[1], y=Y[1], gen=int(c[1])))
